@@ -83,12 +83,23 @@ class World(object):
     return out
 
 
+SAFE_CONTAINER_METHODS = ("clear", "add", "discard", "append")
+
+
 def _default_may_raise(node):
-  """Exceptional mode: a node may raise when it evaluates a call, subscript, attribute access on
-  a non-self object, or arithmetic -- conservatively: anything but pure name/constant moves."""
+  """Exceptional mode: a node may raise when it evaluates a call, a subscript or arithmetic.
+  Not counted: plain name/attribute moves, and clear/add/discard/append on a container attribute of
+  self (they cannot fail for the engine's own sets, dicts and lists)."""
   for e in node.exprs:
     for n in walk_no_nested(e):
-      if isinstance(n, (ast.Call, ast.Subscript, ast.BinOp, ast.Compare, ast.Attribute)):
+      if isinstance(n, ast.Call):
+        f = n.func
+        if isinstance(f, ast.Attribute) and f.attr in SAFE_CONTAINER_METHODS and \
+            isinstance(f.value, ast.Attribute) and isinstance(f.value.value, ast.Name) and \
+            f.value.value.id == "self":
+          continue
+        return True
+      if isinstance(n, (ast.Subscript, ast.BinOp)):
         return True
   return False
 
